@@ -22,6 +22,8 @@ Record finfo := {
   fi_oneof : option string;    (* OneOfName: Go name of the holder *)
   fi_via : list string;        (* pointer-embedded fields through which Go resolves obj.<Name> *)
   fi_parent : option (string * goval); (* ParentIsOptionalEmbedFieldName, zero value of its struct *)
+  fi_inner : list (string * goval);    (* ParentIsOptionalEmbedInner: the nullable embedded messages between fi_parent
+                                          and the field, outermost first, with the zero values of their structs *)
   fi_required : bool;
   fi_computed : bool;
   fi_sensitive : bool;
